@@ -1909,4 +1909,101 @@ pub mod verif {
     ) -> BoxFuture<'a, Result<Vec<ExtendedHeader>, HeaderExError>> {
         decode_and_verify_responses(request, responses).boxed()
     }
+
+    // C31 / C32: the private client handler driven through a recording `RequestSender`
+    pub const MAX_PEERS_V: usize = MAX_PEERS;
+    pub const MAX_TRIES_V: usize = MAX_TRIES;
+
+    #[derive(Default)]
+    pub struct RecordingRequestSender {
+        pub sent: Vec<(u64, PeerId, HeaderRequest)>,
+    }
+
+    impl RequestSender for RecordingRequestSender {
+        type RequestId = u64;
+
+        fn send_request(&mut self, peer: &PeerId, request: HeaderRequest) -> u64 {
+            let id = self.sent.len() as u64;
+            self.sent.push((id, *peer, request));
+            id
+        }
+    }
+
+    pub type Answer = oneshot::Receiver<Result<Vec<ExtendedHeader>, P2pError>>;
+
+    /// the real `HeaderExClientHandler` + a real `PeerTracker` + the recording sender
+    pub struct ClientRig {
+        handler: HeaderExClientHandler<RecordingRequestSender>,
+        pub sender: RecordingRequestSender,
+        tracker: PeerTracker,
+        _events: crate::events::EventChannel,
+    }
+
+    impl ClientRig {
+        pub fn new() -> Self {
+            let events = crate::events::EventChannel::new();
+            ClientRig {
+                handler: HeaderExClientHandler::new(),
+                sender: RecordingRequestSender::default(),
+                tracker: PeerTracker::new(events.publisher()),
+                _events: events,
+            }
+        }
+        pub fn set_peer(&mut self, peer: &PeerId, trusted: bool, archival: bool) {
+            self.tracker.set_trusted(peer, trusted);
+            if archival {
+                self.tracker.mark_as_archival(peer);
+            }
+        }
+        pub fn connect(&mut self, peer: &PeerId, conn: usize) {
+            self.tracker
+                .add_connection(peer, libp2p::swarm::ConnectionId::new_unchecked(conn));
+        }
+        pub fn disconnect(&mut self, peer: &PeerId, conn: usize) {
+            self.tracker
+                .remove_connection(peer, libp2p::swarm::ConnectionId::new_unchecked(conn));
+        }
+        pub fn send_request(&mut self, request: HeaderRequest) -> Answer {
+            let (tx, rx) = oneshot::channel();
+            self.handler.on_send_request(request, tx);
+            rx
+        }
+        pub fn schedule(&mut self) {
+            self.handler
+                .schedule_pending_requests(&mut self.sender, &self.tracker);
+        }
+        pub fn response(&mut self, peer: PeerId, id: u64, responses: Vec<HeaderResponse>) {
+            self.handler.on_response_received(peer, id, responses);
+        }
+        pub fn failure(&mut self, peer: PeerId, id: u64, error: OutboundFailure) {
+            self.handler.on_failure(peer, id, error);
+        }
+        pub fn stop(&mut self) {
+            self.handler.on_stop();
+        }
+        pub fn poll(&mut self, cx: &mut Context) -> Poll<&'static str> {
+            self.handler.poll(cx).map(|ev| match ev {
+                Event::SchedulePendingRequests => "SchedulePendingRequests",
+                Event::NeedTrustedPeers => "NeedTrustedPeers",
+                Event::NeedArchivalPeers => "NeedArchivalPeers",
+            })
+        }
+        /// (in-flight requests, pending per kind [Any, Archival, Trusted, TrustedArchival],
+        ///  waiting head callers, head request scheduled, running tasks)
+        pub fn counts(&self) -> (usize, [usize; 4], usize, bool, usize) {
+            let p = |k: PeerKind| self.handler.pending_reqs.get(&k).map_or(0, |q| q.len());
+            (
+                self.handler.reqs.len(),
+                [
+                    p(PeerKind::Any),
+                    p(PeerKind::Archival),
+                    p(PeerKind::Trusted),
+                    p(PeerKind::TrustedArchival),
+                ],
+                self.handler.head_reqs.len(),
+                self.handler.head_req_scheduled,
+                self.handler.tasks.len(),
+            )
+        }
+    }
 }
